@@ -112,6 +112,20 @@ _TYPES_BY_NAME = {
 }
 
 
+# Names bound by `from nada_dsl import *` that calls and annotations are matched against.
+_TYPES_DSL_NAMES = (
+    "Party",
+    "Input",
+    "Output",
+    "Integer",
+    "PublicInteger",
+    "SecretInteger",
+    "Boolean",
+    "PublicBoolean",
+    "SecretBoolean",
+)
+
+
 def _types_eval(a):
     """
     Resolve a type annotation to a type without evaluating it (the audited
@@ -291,6 +305,10 @@ def types(a, env=None, func=False):
             and a.level == 0
         ):
             rules_no_restriction(a, recursive=True)
+            # The import binds the names of the library again: a helper or variable of
+            # the program that had taken one of them no longer shadows it.
+            for name in _TYPES_DSL_NAMES:
+                env.pop(name, None)
         return env
 
     if isinstance(a, ast.FunctionDef):
@@ -309,9 +327,15 @@ def types(a, env=None, func=False):
                 # The definition rebinds its name whether or not it is admitted into the
                 # subset: what an earlier definition (or a built-in function of that
                 # name) promised no longer holds for the calls that follow.
+                rebinds = a.name in env
                 env[a.name] = TypeErrorRoot(
                     "function is not defined within the supported subset"
                 )
+                if rebinds:
+                    # Functions defined so far were typed with the earlier binding of the
+                    # name (a variable, another signature) and read the new one when they
+                    # are called: a second binding stays outside the subset.
+                    return env
                 t_ret = None
                 try:
                     t_ret = _types_eval(a.returns)
